@@ -1,24 +1,30 @@
-#!/bin/sh
-# tools/integrate.sh <Cnn> : copy a contributor's files from /tmp/vw/<Cnn> into /verif, never overwriting shared
-# framework files (differences in those are only listed).
-set -e
+#!/bin/bash
+# tools/integrate.sh <Cnn> [--apply]: copy a contributor's files from /tmp/vw/<Cnn> into /verif.
+# Skipped: shared framework files (listed when they differ) and files whose content equals SOME committed
+# version in /verif's history (= the contributor did not touch them; their copy is merely older).
 id=$1
 src=/tmp/vw/$id
 cd /verif
-SHARED="lib/ check setup.sh HOWTO.md DESIGN.md MANIFEST.json properties.jsonl lean/Driver/Stream.lean lean/Driver/Main.lean lean/Obao/Model/Prelude.lean lean/Obao.lean lean/lakefile.toml lean/lake-manifest.json harness/vh/vh.go harness/wb/vault/zz_verif_common_test.go tools/mkmanifest.py tools/gen_driver_main.py tools/integrate.sh .gitignore"
-EXC="--exclude .git --exclude .work --exclude replays --exclude lean/.lake --exclude __pycache__ --exclude evidence"
+SHARED="lib/ check setup.sh HOWTO.md DESIGN.md MANIFEST.json properties.jsonl known_findings.json lean/Driver/Stream.lean lean/Driver/Main.lean lean/Obao/Model/Prelude.lean lean/Obao.lean lean/lakefile.toml lean/lake-manifest.json harness/vh/vh.go harness/wb/vault/zz_verif_common_test.go tools/ .gitignore notes/ seeded/"
+EXC="--exclude .git --exclude .work --exclude replays --exclude lean/.lake --exclude __pycache__ --exclude evidence --exclude lean/Obao/Gen"
 for s in $SHARED; do EXC="$EXC --exclude /$s"; done
-echo "== files to copy:"
-rsync -rcn --out-format='%n' $EXC $src/ /verif/ | grep -v '/$' || true
+files=$(rsync -rcn --out-format='%n' $EXC $src/ /verif/ | grep -v '/$')
+copy=""
+for f in $files; do
+  h=$(git hash-object "$src/$f")
+  if git cat-file -e "$h" 2>/dev/null; then echo "stale (skipped): $f"; else copy="$copy $f"; fi
+done
+echo "== files to copy:"; for f in $copy; do echo "  $f"; done
 echo "== shared files that differ (NOT copied):"
 for s in $SHARED; do
   if [ -e "$src/$s" ]; then
-    if [ -d "$src/$s" ]; then diff -rq "$src/$s" "/verif/$s" 2>/dev/null | grep -v __pycache__ || true
+    if [ -d "$src/$s" ]; then diff -rq "$src/$s" "/verif/$s" 2>/dev/null | grep -v __pycache__ | grep -v "^Only in /verif" || true
     else cmp -s "$src/$s" "/verif/$s" || echo "differs: $s"; fi
   fi
 done
 if [ "$2" = "--apply" ]; then
-  rsync -rc $EXC $src/ /verif/
+  for f in $copy; do mkdir -p "$(dirname "/verif/$f")"; cp "$src/$f" "/verif/$f"; done
+  if [ -f REPORT-$id.md ]; then mkdir -p notes/reports; mv REPORT-$id.md notes/reports/; fi
   python3 tools/gen_driver_main.py
   echo applied
 fi
